@@ -150,9 +150,13 @@ def _empty_out(res):
         res.clear()
 
 
-def unary_observations(Perm, p, cover):
+FRESH_MAX = 6     # the second-call observations are made for permutations up to this length
+
+
+def unary_observations(Perm, p, cover, full=True):
     """[(sub, op, thunk, expected)] for one permutation p (a tuple).  cover: set of the perms of
-    length n+1 covering p, or None when the table is not available for this length."""
+    length n+1 covering p, or None when the table is not available for this length.
+    full=False leaves out the removal family (n ... 3n calls, explored by `insert` as well)."""
     C = Conv(Perm)
     n = len(p)
     P = Perm(p)
@@ -219,7 +223,7 @@ def unary_observations(Perm, p, cover):
         add("covers", "coveredby", lambda: C.pset(P.coveredby()), sorted(cover))
 
     # ---- removal ---------------------------------------------------------------------------
-    for i in range(n):
+    for i in range(n if full else 0):
         add("remove", "remove(%d)" % i, lambda i=i: C.p(P.remove(i)), X.remove_at(p, i))
         add("remove", "remove_element(%d)" % i, lambda i=i: C.p(P.remove_element(i)),
             X.remove_value(p, i))
@@ -233,25 +237,21 @@ def unary_observations(Perm, p, cover):
     #      first result, neither on the same object nor on an equal one ---------------------
     expected = {o: e for (_, o, _, e) in out}
     for op in LIST_OPS:
-        if op not in expected:
+        if op not in expected or n > FRESH_MAX:
             continue
 
         def again(op=op):
             norm = LIST_NORM[op]
             _empty_out(getattr(P, op)())
-            second = norm(C, P)
-            P2 = Perm(p)
-            third = norm(C, P2)
-            _empty_out(getattr(P2, op)())
-            return [second, third, norm(C, P2)]
-        add("fresh", op + ":second_call", again, [expected[op]] * 3)
+            return [norm(C, P), norm(C, Perm(p))]
+        add("fresh", op + ":second_call", again, [expected[op]] * 2)
     return out
 
 
-def check_unary(part, Perm, p, cover, after=None):
+def check_unary(part, Perm, p, cover, after=None, full=True):
     case0 = {"perm": p, "after": after}
     bad = 0
-    for sub, op, thunk, exp in unary_observations(Perm, p, cover):
+    for sub, op, thunk, exp in unary_observations(Perm, p, cover, full):
         case = dict(case0, op=op)
         if not observe(part, sub, case, thunk, exp):
             bad += 1
@@ -273,14 +273,14 @@ _COVER = {}      # n -> cover table, built in the parent before forking
 
 
 def shard_unary(shard):
-    n, lo, hi = shard
+    n, lo, hi, full = shard
     Perm = _P()
     part = Partial()
     table = _COVER.get(n)
     prev = None
     for p in level_slice(n, lo, hi):
         cover = table[p] if table is not None else None
-        check_unary(part, Perm, p, cover, after=prev)
+        check_unary(part, Perm, p, cover, after=prev, full=full)
         part.add(1, unary_nontrivial(p))
         if not X.intervals(p) and n >= 4:
             part.bump("unary_simple_perms")
@@ -612,17 +612,23 @@ def run(ctx, only=None):
 
     # ---- unary -----------------------------------------------------------------------------
     if want("unary"):
-        nmax = 7 if quick else 9
-        cmax = 6 if quick else 7          # coveredby: table over S_{cmax+1}
+        nfull = 7 if quick else 8          # all observers
+        ncore = 7 if quick else 9          # all observers except the removal family
+        cmax = 6 if quick else 7           # coveredby: table over S_{cmax+1}
         for n in range(0, cmax + 1):
             _COVER[n] = X.cover_table(n)
         per = {0: 1, 1: 1, 2: 2, 3: 6, 4: 12, 5: 15, 6: 45, 7: 105, 8: 420, 9: 2268}
-        shards = [(n, lo, hi) for n in range(0, nmax + 1) for lo, hi in chunks(n, per[n])]
+        shards = [(n, lo, hi, n <= nfull) for n in range(0, ncore + 1)
+                  for lo, hi in chunks(n, per[n])]
         e0 = ctx.evals
         ctx.pmap(shard_unary, shards)
         _COVER.clear()
-        ctx.bounds["unary"] = {"perm_length": "0..%d (all)" % nmax,
-                               "coveredby_perm_length": "0..%d (table over S_%d)" % (cmax, cmax + 1)}
+        ctx.bounds["unary"] = {
+            "perm_length_all_observers": "0..%d (every permutation)" % nfull,
+            "perm_length_without_removal_family": ("%d..%d (every permutation)" % (nfull + 1, ncore)
+                                                   if ncore > nfull else None),
+            "coveredby_perm_length": "0..%d (table over S_%d)" % (cmax, cmax + 1),
+            "second_call_perm_length": "0..%d" % FRESH_MAX}
         ctx.section("unary", perms=ctx.evals - e0)
 
     # ---- insert ------------------------------------------------------------------------------
@@ -637,8 +643,8 @@ def run(ctx, only=None):
 
     # ---- shifts --------------------------------------------------------------------------------
     if want("shift"):
-        nmax, amax = (5, 7) if quick else (7, 9)
-        per = {0: 1, 1: 1, 2: 2, 3: 6, 4: 6, 5: 8, 6: 45, 7: 105}
+        nmax, amax = (5, 7) if quick else (6, 13)
+        per = {0: 1, 1: 1, 2: 2, 3: 6, 4: 6, 5: 8, 6: 45}
         e0 = ctx.evals
         ctx.pmap(shard_shift, [(n, lo, hi, amax) for n in range(0, nmax + 1)
                                for lo, hi in chunks(n, per[n])])
@@ -648,17 +654,14 @@ def run(ctx, only=None):
     # ---- composition ---------------------------------------------------------------------------
     if want("compose"):
         pmax, tmax = (5, 4) if quick else (6, 5)
-        per = {0: 1, 1: 1, 2: 2, 3: 6, 4: 4, 5: 8, 6: 15, 7: 63}
+        per = {0: 1, 1: 1, 2: 2, 3: 6, 4: 4, 5: 8, 6: 15}
         shards = [("pairs", n, lo, hi, True) for n in range(0, pmax + 1)
                   for lo, hi in chunks(n, per[n])]
-        if not quick:
-            shards += [("pairs", 7, lo, hi, False) for lo, hi in chunks(7, per[7])]
         shards += [("triples", n, lo, hi, True) for n in range(0, tmax + 1)
                    for lo, hi in chunks(n, 2 if n >= 4 else 6)]
         e0 = ctx.evals
         ctx.pmap(shard_compose, shards)
-        ctx.bounds["compose"] = {"pairs_with_laws": "all (p, q), equal length 0..%d" % pmax,
-                                 "pairs_definition_only": None if quick else "all (p, q) of length 7",
+        ctx.bounds["compose"] = {"pairs": "all (p, q), equal length 0..%d" % pmax,
                                  "triples": "all (p, q, r), equal length 0..%d" % tmax}
         ctx.section("compose", cases=ctx.evals - e0)
 
@@ -717,7 +720,7 @@ def replay(ctx, rec):
     if sub in ("decomp", "blocks", "mono", "children", "covers", "remove", "fresh"):
         p = _tt(case["perm"])
         after = _tt(case.get("after"))
-        cover = X.cover_table(len(p))[p] if len(p) <= 7 else None
+        cover = X.cover_table(len(p))[p] if "coveredby" in case.get("op", "") else None
         if after is not None:
             # the input handled immediately before in the exploration (state carried over)
             check_unary(Collect(), Perm, after, None, after=None)
